@@ -124,6 +124,11 @@ func ErrClass(err error) string {
 	if err == nil {
 		return "nil"
 	}
+	// errs.Combine(first, later...): the caller sees the first error
+	var grp interface{ Ungroup() []error }
+	if errors.As(err, &grp) && len(grp.Ungroup()) > 0 && grp.Ungroup()[0] != err {
+		return ErrClass(grp.Ungroup()[0])
+	}
 	m := err.Error()
 	if i := strings.Index(m, "manager closed: "); i >= 0 {
 		inner := m[i+len("manager closed: "):]
